@@ -356,7 +356,9 @@ def feLookup (toks : List RTok) (line col : Nat) : Option RTok :=
 
 /-- C11: model of `findEntry` + `getPathAndLine` (1-based in, 1-based out) on a raw map -/
 def processJs (rec : J) : J :=
-  match decodeMapJson (rec.getD "map").strD with
+  -- js/source-map/node_source_map.js reads `sources` as they are (the maps it is given are the
+  -- rewriter's, whose sources the `sourcemap` crate has already resolved)
+  match decodeMapJson (rec.getD "map").strD false with
   | .error e => .obj [("id", rec.getD "id"), ("error", jstr e)]
   | .ok dm =>
     let sorted := dm.tokens.mergeSort fun a b => !FindEntry.posLt (b.genLine, b.genCol) (a.genLine, a.genCol)
